@@ -60,6 +60,13 @@ pub fn failed() -> bool {
 
 /// adversary mode (C08 replay): before every step of thread 1 a helper thread completes one full write
 pub static ADV_BUDGET: AtomicUsize = AtomicUsize::new(0);
+/// C09 replay: bit t set = thread t stays suspended for ever once its part of the schedule is used up
+pub static FREEZE: AtomicUsize = AtomicUsize::new(0);
+thread_local! {
+    /// set when a conc-mode thread announces its own exit: it leaves without waiting for the others so
+    /// that its thread-local destructors run (gated) as part of the schedule
+    pub static EXIT_NOW: Cell<bool> = const { Cell::new(false) };
+}
 static ADV: Mutex<Option<(Sender<()>, std::sync::mpsc::Receiver<()>)>> = Mutex::new(None);
 
 pub fn install_adversary(f: extern "C" fn(), budget: usize) {
@@ -105,6 +112,12 @@ pub fn gate_enter() {
     let start = Instant::now();
     loop {
         let p = POS.load(Relaxed);
+        if FREEZE.load(Relaxed) & (1 << id) != 0 && !sched[p.min(sched.len())..].contains(&id) {
+            // frozen for good
+            loop {
+                std::thread::sleep(Duration::from_secs(3600));
+            }
+        }
         if p >= sched.len() {
             // schedule exhausted: the rest runs freely
             FREE_RUN.store(true, Relaxed);
@@ -274,6 +287,10 @@ pub fn on_thread<R: Send, F: FnOnce() -> R + Send>(t: u32, f: F) -> R {
 
 #[no_mangle]
 pub extern "C" fn verif_thread_exit(t: u32) {
+    if my_id() == t as i64 && my_id() > 0 {
+        EXIT_NOW.with(|e| e.set(true));
+        return;
+    }
     let w = WORKERS.lock().unwrap().as_mut().and_then(|m| m.remove(&t));
     if let Some((tx, h)) = w {
         drop(tx);
